@@ -482,10 +482,13 @@ def killed_vars(fn, n):
     w = written_var(fn, n)
     if w is not None:
         out.add(w[0])
+        if w[0][0] == 'v' and fn.locals[w[0][1]]['type'].endswith('*'):
+            out.add(('pc', w[0][1]))       # column variable of a modelled pointer
     if k == 'DeclStmt':
         for dd in n.get('decls', []):
             if 'var' in dd:
                 out.add(('v', dd['var']))
+                out.add(('pc', dd['var']))
     if k == 'CallExpr' and n.get('callee') in PURE_FORWARDING and (n.get('cq') or 'std::').startswith('std::'):
         return out      # forwarding-reference parameters of std helpers that only read their arguments
     if k in ('CallExpr', 'CXXMemberCallExpr', 'CXXOperatorCallExpr', 'CXXConstructExpr', 'CXXTemporaryObjectExpr'):
@@ -509,9 +512,14 @@ def killed_vars(fn, n):
     return out
 
 
+PTR_STEP = None      # hook: (fn, d, node) -> True if the element was a write of a modelled pointer and has been applied to d
+
+
 def step(fn, d, n):
     """Zone after executing CFG element n (statement-level transfer for integer variables)."""
     if d.bot:
+        return d
+    if PTR_STEP is not None and PTR_STEP(fn, d, n):
         return d
     k = n['k']
     w = written_var(fn, n)
